@@ -25,9 +25,6 @@
 //!   cells gained by the stored content (new row versions, tombstones) since the previous observation.
 use crate::inst::*;
 use discret::verif_hooks::clock;
-use discret::verif_hooks::database::edge::{Edge, EdgeDeletionEntry};
-use discret::verif_hooks::database::node::{Node, NodeDeletionEntry, NodeIdentifier};
-use discret::verif_hooks::database::room_node::RoomNode;
 use discret::verif_hooks::security::{derive_key, Ed25519SigningKey, SigningKey, Uid};
 use dvcommon::{parse_kv, Stats};
 use std::collections::{BTreeMap, BTreeSet, HashMap, HashSet};
@@ -473,130 +470,13 @@ impl World {
         (status, 1)
     }
 
-    /// `s` ingests room `r` of site `t`: the call sequence of `synchronise_room` / `synchronise_day`
-    /// (peer_inbound_service.rs) for every (entity, day) of the remote log, over direct calls.
     async fn do_pull(&mut self, s: usize, t: usize, r: u64) -> (String, usize) {
         let room = self.rooms[&r];
         let src = self.sites[t].inst.svc.clone();
         let dst = self.sites[s].inst.svc.clone();
-        let remote_def = match src.get_room_definition(room).await {
-            Ok(Some(d)) => d,
-            Ok(None) => return ("err:room-unknown".into(), 0),
-            Err(e) => return (format!("err:{}", class(&e)), 0),
-        };
-        let local_def = dst.get_room_definition(room).await.ok().flatten();
-        let load = match &local_def {
-            Some(l) => l.room_def_date < remote_def.room_def_date,
-            None => true,
-        };
-        if load {
-            match src.get_room_node(room).await {
-                Ok(Some(n)) => {
-                    let ser = bincode::serialize(&n).unwrap();
-                    let n = bincode::deserialize::<RoomNode>(&ser).unwrap();
-                    if let Err(e) = dst.add_room_node(n).await {
-                        return (format!("err:room-{}", class(&e)), 0);
-                    }
-                }
-                _ => return ("err:room-node".into(), 0),
-            }
-        }
-        let mut log = vec![];
-        let mut rx = src.get_room_log(room).await;
-        while let Some(l) = rx.recv().await {
-            match l {
-                Ok(mut l) => log.append(&mut l),
-                Err(e) => return (format!("err:{}", class(&e)), 0),
-            }
-        }
-        let mut modified = false;
-        for entry in log {
-            let (entity, date) = (entry.entity.clone(), entry.date);
-            let mut rx = src.get_room_edge_deletion_log(room, entity.clone(), date).await;
-            while let Some(v) = rx.recv().await {
-                let v: Vec<EdgeDeletionEntry> = match v {
-                    Ok(v) => v,
-                    Err(e) => return (format!("err:{}", class(&e)), modified as usize),
-                };
-                if !v.is_empty() {
-                    modified = true;
-                    let v: Vec<EdgeDeletionEntry> = bincode::deserialize(&bincode::serialize(&v).unwrap()).unwrap();
-                    if let Err(e) = dst.delete_edges(v).await {
-                        return (format!("err:{}", class(&e)), 0);
-                    }
-                }
-            }
-            let mut rx = src.get_room_node_deletion_log(room, entity.clone(), date).await;
-            while let Some(v) = rx.recv().await {
-                let v: Vec<NodeDeletionEntry> = match v {
-                    Ok(v) => v,
-                    Err(e) => return (format!("err:{}", class(&e)), modified as usize),
-                };
-                if !v.is_empty() {
-                    modified = true;
-                    let v: Vec<NodeDeletionEntry> = bincode::deserialize(&bincode::serialize(&v).unwrap()).unwrap();
-                    if let Err(e) = dst.delete_nodes(v).await {
-                        return (format!("err:{}", class(&e)), 0);
-                    }
-                }
-            }
-            let mut remote_nodes: HashSet<NodeIdentifier> = HashSet::new();
-            let mut rx = src.get_room_daily_nodes(room, entity.clone(), date).await;
-            while let Some(v) = rx.recv().await {
-                match v {
-                    Ok(v) => {
-                        for n in v {
-                            remote_nodes.insert(n);
-                        }
-                    }
-                    Err(e) => return (format!("err:{}", class(&e)), modified as usize),
-                }
-            }
-            let filtered = match dst.filter_existing_node(remote_nodes).await {
-                Ok(f) => f,
-                Err(e) => return (format!("err:{}", class(&e)), modified as usize),
-            };
-            if filtered.is_empty() {
-                continue;
-            }
-            modified = true;
-            let node_list: Vec<Uid> = filtered.iter().map(|n| n.id).collect();
-            let edge_list: Vec<(Uid, i64)> = filtered.iter().map(|n| (n.id, n.old_mdate)).collect();
-            let mut node_map: HashMap<Uid, _> = filtered.into_iter().map(|n| (n.id, n)).collect();
-            let mut rx = src.get_nodes(room, node_list).await;
-            while let Some(v) = rx.recv().await {
-                let nodes: Vec<Node> = match v {
-                    Ok(v) => bincode::deserialize(&bincode::serialize(&v).unwrap()).unwrap(),
-                    Err(e) => return (format!("err:{}", class(&e)), 1),
-                };
-                let mut to_insert = vec![];
-                for mut node in nodes {
-                    if node.verify().is_err() {
-                        continue;
-                    }
-                    if let Some(mut nti) = node_map.remove(&node.id) {
-                        node._local_id = nti.old_local_id;
-                        nti.node = Some(node);
-                        to_insert.push(nti);
-                    }
-                }
-                if let Err(e) = dst.add_nodes(room, to_insert).await {
-                    return (format!("err:{}", class(&e)), 1);
-                }
-            }
-            let mut rx = src.get_edges(room, edge_list).await;
-            while let Some(v) = rx.recv().await {
-                let edges: Vec<Edge> = match v {
-                    Ok(v) => bincode::deserialize(&bincode::serialize(&v).unwrap()).unwrap(),
-                    Err(e) => return (format!("err:{}", class(&e)), 1),
-                };
-                if let Err(e) = dst.add_edges(room, edges).await {
-                    return (format!("err:{}", class(&e)), 1);
-                }
-            }
-        }
-        if modified {
-            dst.compute_daily_log().await;
+        let (st, n_req, load) = pull_room(&src, &dst, room).await;
+        if st != "ok" {
+            return (st, n_req);
         }
         // which rows exist at the destination now (bookkeeping for later ops; not an observation)
         let known: Vec<(u64, (Uid, u64))> = self.row_uid.iter().map(|(n, v)| (*n, *v)).collect();
@@ -618,7 +498,7 @@ impl World {
             })
             .await;
         self.sites[s].rows = known.into_iter().filter(|(_, (id, _))| present.contains(id)).collect();
-        ((if load { "ok+def" } else { "ok" }).into(), modified as usize)
+        ((if load { "ok+def" } else { "ok" }).into(), n_req)
     }
 
     // ------------------------------------------------------------------ dispatch
